@@ -122,3 +122,31 @@ Qed.
 Print Assumptions c06_consumer_before_producer_rejected.
 Print Assumptions c06_double_edge_dependency_order.
 Print Assumptions c06_double_edge_consumer_first_loses_tuples.
+
+(* ---- the same invariance through the PARALLEL macro (Engine/InvariancePar.v; the tie sends every variant through
+   ascent_par! as well): a parallel run — any distribution of the work over workers, any interleaving of their atomic
+   steps, any join-order oracle — of an accepted plan for a permutation of the rules on a permutation of the input computes
+   the relations of the serial run of the original; and two parallel runs agree with each other *)
+From AV Require Engine.ParStep.
+From AV Require Engine.InvariancePar.
+
+Theorem c06_parallel_variant_equals_serial_original : forall I swap swap' arities P P' pl pl' fuel F0 F0' st st',
+  arities_functional arities -> no_agg P = true ->
+  Permutation P P' -> Permutation F0 F0' -> wf_facts arities F0 = true ->
+  validate arities P pl = true -> validate arities P' pl' = true ->
+  run_plan I swap fuel pl (init_state F0) = Some st ->
+  ParStep.par_run_plan I swap' pl' (init_state F0') st' ->
+  same_set (rows st) (rows st').
+Proof. exact InvariancePar.par_run_perm_invariant. Qed.
+
+Theorem c06_parallel_variants_agree : forall I swap swap' arities P P' pl pl' F0 F0' st st',
+  arities_functional arities -> no_agg P = true ->
+  Permutation P P' -> Permutation F0 F0' -> wf_facts arities F0 = true ->
+  validate arities P pl = true -> validate arities P' pl' = true ->
+  ParStep.par_run_plan I swap pl (init_state F0) st ->
+  ParStep.par_run_plan I swap' pl' (init_state F0') st' ->
+  same_set (rows st) (rows st').
+Proof. exact InvariancePar.par_par_perm_invariant. Qed.
+
+Print Assumptions c06_parallel_variant_equals_serial_original.
+Print Assumptions c06_parallel_variants_agree.
